@@ -822,6 +822,7 @@ func (l *ledger) checkInfo(n *simNode) {
 		l.violate("info", "snapshot-beyond-log", fmt.Sprintf("node %d: snapshot index %d > last log index %d", n.id, cur.snapIdx, r.lastLogIndex))
 	}
 	if r.configs.IsCommitted() && r.configs.Committed.Index > r.commitIndex && r.configs.Committed.Index > 1 {
+		l.violate("removed", "config-treated-as-committed-before-commit", fmt.Sprintf("node %d treats configuration %d {%s} as committed (and acts on it: step-down / shutdown of a demoted or removed node) while its commit index is %d", n.id, r.configs.Committed.Index, canonConfig(r.configs.Committed), r.commitIndex))
 		l.violate("info", "config-marked-committed-beyond-commit-index", fmt.Sprintf("node %d treats config %d as committed but its commit index is %d", n.id, r.configs.Committed.Index, r.commitIndex))
 	}
 	if r.configs.Committed.Index > r.configs.Latest.Index {
